@@ -28,10 +28,15 @@ func ResourceLogs(records []log.Record) []*lpb.ResourceLogs {
 		return nil
 	}
 
-	resMap := make(map[attribute.Distinct]*lpb.ResourceLogs)
+	// A resource is identified by its attributes and its schema URL.
+	type resKey struct {
+		r   attribute.Distinct
+		url string
+	}
+	resMap := make(map[resKey]*lpb.ResourceLogs)
 
 	type key struct {
-		r  attribute.Distinct
+		r  resKey
 		is instrumentation.Scope
 	}
 	scopeMap := make(map[key]*lpb.ScopeLogs)
@@ -39,7 +44,7 @@ func ResourceLogs(records []log.Record) []*lpb.ResourceLogs {
 	var resources int
 	for _, r := range records {
 		res := r.Resource()
-		rKey := res.Equivalent()
+		rKey := resKey{r: res.Equivalent(), url: res.SchemaURL()}
 		scope := r.InstrumentationScope()
 		k := key{
 			r:  rKey,
